@@ -34,8 +34,9 @@ EnumGoInt(s, v) ==
 
 Class(line, i, form, v, want) ==
    IF form = "on" /\ line.of[i] = want /\ line.om[i] = want
-   THEN IF EnumNestedNumber(line.s, v) THEN "enum_nested_number_jsonnumber"
-        ELSE IF UniqueNumberSpelling(line.s, v) THEN "uniqueitems_number_spelling_jsonnumber"
+   \* the open class first: F-C01-1 is repaired (bc49a97), and a pair that fits both predicates must not be booked on the repaired one
+   THEN IF UniqueNumberSpelling(line.s, v) THEN "uniqueitems_number_spelling_jsonnumber"
+        ELSE IF EnumNestedNumber(line.s, v) THEN "enum_nested_number_jsonnumber"
         ELSE "none"
    ELSE IF form = "og" /\ line.of[i] = want /\ line.om[i] = want
    THEN IF EnumGoInt(line.s, v) THEN "enum_number_goint" ELSE "none"
